@@ -283,6 +283,14 @@ def rule_sentinel(ctx, tu, I):
                         s = subject_of(y, f) if y.get("kind") in ("DeclRefExpr", "CXXOperatorCallExpr") else None
                         if s and strip(y, casts=True) is y:
                             uses.append((x, s, frozenset(facts) | frozenset(cxa.local_facts(node, x)), "index"))
+                        elif s is None and y.get("kind") == "DeclRefExpr" and uname(y) is not None:
+                            # a local holding index arithmetic over a sentinel load:  int dst = nb[c*6+d]*S + s;  x[dst]
+                            d_ = I.scopes[f.qual].defs.get(uname(y))
+                            if d_ is not None and not I.scopes[f.qual].stored.get(uname(y)):
+                                for z in walk(d_):
+                                    s2 = subject_of(z, f) if z.get("kind") in ("DeclRefExpr", "CXXOperatorCallExpr") else None
+                                    if s2 and strip(z, casts=True) is z:
+                                        uses.append((x, s2, frozenset(facts) | frozenset(cxa.local_facts(node, x)), "index"))
                 # (2) call passing a sentinel value to a parameter used as a cell index
                 cp = call_parts(x) if x.get("kind") in ("CallExpr", "CXXMemberCallExpr") else None
                 if cp:
